@@ -440,14 +440,6 @@ class Obj(list):
     """ordered JSON object"""
 
 
-def dumps(j):
-    if isinstance(j, Obj):
-        return "{" + ",".join(json.dumps(k, ensure_ascii=False) + ":" + dumps(x) for k, x in j) + "}"
-    if isinstance(j, list):
-        return "[" + ",".join(dumps(x) for x in j) + "]"
-    return json.dumps(j, ensure_ascii=False)
-
-
 def loads(text):
     return json.loads(text, object_pairs_hook=Obj)
 
@@ -721,10 +713,7 @@ class RawJ(str):
     pass
 
 
-_orig_dumps = dumps
-
-
-def dumps(j):  # noqa: F811  (RawJ support)
+def dumps(j):
     if isinstance(j, RawJ):
         return str(j)
     if isinstance(j, Obj):
@@ -844,17 +833,25 @@ def compile_and_run(binary, scratch, name, src):
     return "ok", p.stdout.decode("utf-8", "surrogateescape")
 
 
+HEADER = re.compile(r"^#([JTRFPHC]) ")
+
+
 def parse_output(stdout, plan):
-    lines = stdout.split("\n")
-    i = 0
-    recs = []
-    for rec in plan:
-        n = rec[-1]
-        if i >= len(lines) or not lines[i].startswith("#" + rec[0] + " "):
-            raise vlib.Infra("generated program output out of step at line %d: %r (expected #%s)" % (i, lines[i] if i < len(lines) else None, rec[0]))
-        recs.append(lines[i + 1:i + 1 + n])
-        i += 1 + n
-    return recs
+    """group the payload lines under their `#TAG ...` header lines; a group with an unexpected number of lines
+    (e.g. multi-line JSON) is kept as it is and judged as a failing record, only a wrong sequence of headers is
+    an infrastructure problem"""
+    groups = []
+    for line in stdout.split("\n"):
+        m = HEADER.match(line)
+        if m:
+            groups.append([m.group(1)])
+        elif groups:
+            groups[-1].append(line)
+    if groups and groups[-1][-1:] == [""]:
+        groups[-1].pop()
+    if [g[0] for g in groups] != [rec[0] for rec in plan]:
+        raise vlib.Infra("generated program printed %d records, %d expected, or in another order" % (len(groups), len(plan)))
+    return [g[1:] for g in groups]
 
 
 def flags(xs):
@@ -882,6 +879,8 @@ def run_batch(chk, binary, scratch, name, decls, ftexts, res, model_ok):
         tag, d = rec[0], rec[1]
         t = ("struct", d)
         if has_float(t):
+            continue
+        if len(lines) != rec[-1]:
             continue
         if tag in ("J", "T"):
             v = d.values[rec[2]]
@@ -914,7 +913,7 @@ def run_batch(chk, binary, scratch, name, decls, ftexts, res, model_ok):
     if model_ok and terms:
         req = "From Verif Require Import Base.I64 C20.Model.\nFrom Coq Require Import ZArith List.\nImport ListNotations.\nOpen Scope Z_scope."
         t2 = time.time()
-        vals = vlib.coq_eval(req, "list Z", "fun x => x", terms, shard=150, tag="c20" + name, extra_defs=EVAL_DEFS)
+        vals = vlib.coq_eval(req, "list Z", "fun x => x", terms, shard=64, tag="c20" + name, extra_defs=EVAL_DEFS)
         vlib.log("[c20] model evaluation of %d cases in %.1fs" % (len(terms), time.time() - t2))
         model = dict(zip(idx, vals))
     # ---- compare
@@ -930,6 +929,9 @@ def run_batch(chk, binary, scratch, name, decls, ftexts, res, model_ok):
         mres = model.get(k)
         if mres is not None:
             n_model += 1
+        if len(lines) != rec[-1]:
+            why = "the record has %d output lines, %d expected (a JSON text must be one line; flags one per line)" % (len(lines), rec[-1])
+            tag = "?"
         if tag in ("J", "T"):
             v = d.values[rec[2]]
             case["value"] = repr(v)
